@@ -665,15 +665,26 @@ fn pool_cfg() -> TxPoolConfig {
 
 /// Like `boot_synced` with default caches, but every block is processed to the end before the
 /// next one is delivered (parents always first), so that each intermediate tip really is adopted.
-fn boot_synced_seq(s: &Setup, order: &[H], assume_valid: Option<Vec<ckb_types::H256>>) -> Option<Node> {
+/// Err(Some(reason)): the node refused part of the (valid) history; Err(None): harness time-out.
+fn boot_synced_seq(s: &Setup, order: &[H], assume_valid: Option<Vec<ckb_types::H256>>) -> Result<Node, Option<String>> {
     let node = Node::boot(&s.gi, &NodeCfg { tx_pool: Some(pool_cfg()), assume_valid_targets: assume_valid, ..Default::default() });
+    let mut first_refusal: Option<String> = None;
     for x in order {
-        let _ = node.chain().blocking_process_block(Arc::clone(&s.tg.rc.get(x).block));
+        let res = node.chain().blocking_process_block(Arc::clone(&s.tg.rc.get(x).block));
+        if let Err(e) = &res {
+            if first_refusal.is_none() {
+                first_refusal = Some(format!("block {}#{} refused: {}", hx(x), s.tg.rc.get(x).number, e));
+            }
+        }
     }
-    if h(&node.tip_hash()) != s.tip || !wait_pool_tip(&node, &s.tip) {
-        return None;
+    if h(&node.tip_hash()) != s.tip {
+        // every delivered block is valid and was processed to the end: a genuine refusal
+        return Err(Some(first_refusal.unwrap_or_else(|| format!("tip is {} instead of {}", hx(&h(&node.tip_hash())), hx(&s.tip)))));
     }
-    Some(node)
+    if !wait_pool_tip(&node, &s.tip) {
+        return Err(None);
+    }
+    Ok(node)
 }
 
 fn boot_synced(s: &Setup, order: &[H], store: Option<StoreConfig>) -> Option<Node> {
@@ -886,7 +897,24 @@ pub fn run(args: &Args) -> i32 {
         // detour: reverse order makes everything arrive as orphans first, then connect
         let n2 = boot_synced(&s, &detour, None);
         // switch-back: the main chain loses to the side branch and wins again
-        let n3 = flip_flop_order(&s).and_then(|o| boot_synced_seq(&s, &o, None));
+        let mut boot_hist = |kind: &str, res: Result<Node, Option<String>>, c04: &mut Report| -> Option<Node> {
+            match res {
+                Ok(n) => Some(n),
+                Err(Some(reason)) => {
+                    c04.violation(
+                        &format!("history_dependence@context_not_reached.{kind}"),
+                        format!("a node with history `{kind}` could not reach the context tip although the directly synchronised node accepted every block: {reason}"),
+                        json!({"context": ci, "history": kind}),
+                    );
+                    None
+                }
+                Err(None) => {
+                    c04.count("history_node_pool_sync_timeouts");
+                    None
+                }
+            }
+        };
+        let n3 = flip_flop_order(&s).and_then(|o| boot_hist("switch_back", boot_synced_seq(&s, &o, None), &mut c04));
         if n3.is_some() {
             c04.count("switch_back_histories");
         }
@@ -894,9 +922,11 @@ pub fn run(args: &Args) -> i32 {
         // context: scripts were skipped up to the second target and must be run again after it
         let n4 = {
             let main = s.tg.rc.path(&s.tip);
-            if main.len() > 14 {
+            if main.len() > 22 {
                 let t = |i: usize| ckb_types::H256::from_slice(&main[i]).unwrap();
-                boot_synced_seq(&s, &direct, Some(vec![t(4), t(9)]))
+                // the second target is close to the context: the blocks whose fees the probe
+                // blocks' cellbases finalise (n - w_far - 1) were imported without scripts
+                boot_hist("assume_valid_targets", boot_synced_seq(&s, &direct, Some(vec![t(main.len() - 15), t(main.len() - 6)])), &mut c04)
             } else {
                 None
             }
